@@ -21,22 +21,19 @@ type finding struct {
 }
 
 const (
-	sigNullRows   = "field-filter|plain-selection|returns-rows-whose-selected-fields-are-all-null"
-	sigPrevLater  = "desc|fill(previous)|filled-from-the-later-bucket"
-	sigFillSplit  = "desc|bytime-fill-split-across-chunks|bucket-with-data-reported-as-empty"
-	sigPrevLeak   = "fill(previous)-split-across-chunks|empty-bucket-filled-with-another-value-than-the-previous-bucket's"
-	sigPrevGroup  = "fill(previous)|empty-bucket-filled-with-a-value-of-the-previous-group"
-	sigLimitCut   = "select-star|limit-smaller-than-series-count|rows-are-not-the-first-of-the-ordered-answer"
-	sigBTMEmpty   = "binary_tree_merge|query-spans-two-or-more-shards|empty-answer"
-	sigBTMPanic   = "binary_tree_merge|selector-over-two-or-more-shards|runtime panic: slice bounds out of range in the merge iterator"
-	sigMixedChunk = "mixed-layout|aggregate|inner-chunk-smaller-than-record"
-	// the descending variant of the same cursor defect on a series that sits in several
-	// time-ordered files + the memtable (ascending answers are right there)
-	sigOrderedDescChunk = "ordered-files-layout|desc|bytime-aggregate"
-	sigMetaPrev         = "metamorphic-only|desc|fill(previous)|differs-from-the-ascending-answer-reversed"
-	sigMetaPhantom      = "metamorphic-only|field-filter|aggregate|null-rows-of-phantom-windows-differ-between-cells"
-	sigMetaFill         = "metamorphic-only|bytime-fill-split-across-chunks|cells-differ"
-	sigPhantomAgg       = "field-filter|aggregate|null-row-for-a-window-whose-passing-rows-have-no-value-of-the-aggregated-field"
+	sigNullRows    = "field-filter|plain-selection|returns-rows-whose-selected-fields-are-all-null"
+	sigPrevLater   = "desc|fill(previous)|filled-from-the-later-bucket"
+	sigFillSplit   = "desc|bytime-fill-split-across-chunks|bucket-with-data-reported-as-empty"
+	sigPrevLeak    = "fill(previous)-split-across-chunks|empty-bucket-filled-with-another-value-than-the-previous-bucket's"
+	sigPrevGroup   = "fill(previous)|empty-bucket-filled-with-a-value-of-the-previous-group"
+	sigLimitCut    = "select-star|limit-smaller-than-series-count|rows-are-not-the-first-of-the-ordered-answer"
+	sigBTMEmpty    = "binary_tree_merge|query-spans-two-or-more-shards|empty-answer"
+	sigBTMPanic    = "binary_tree_merge|selector-over-two-or-more-shards|runtime panic: slice bounds out of range in the merge iterator"
+	sigMixedChunk  = "mixed-layout|aggregate|inner-chunk-smaller-than-record"
+	sigMetaPrev    = "metamorphic-only|desc|fill(previous)|differs-from-the-ascending-answer-reversed"
+	sigMetaPhantom = "metamorphic-only|field-filter|aggregate|null-rows-of-phantom-windows-differ-between-cells"
+	sigMetaFill    = "metamorphic-only|bytime-fill-split-across-chunks|cells-differ"
+	sigPhantomAgg  = "field-filter|aggregate|null-row-for-a-window-whose-passing-rows-have-no-value-of-the-aggregated-field"
 )
 
 // bucketsInRange: number of GROUP BY time buckets of the query range.
@@ -150,12 +147,9 @@ func attribute(q *querySpec, cl cell, rows []mrow, schema map[string]byte, obs *
 		}
 		return unexplained
 	}
-	if (q.Interval > 0 || hasField) && cl.Layout == "mixed" && cl.Inner < 1024 {
-		return []finding{{sigMixedChunk, mm.String()}}
-	}
-	if q.Interval > 0 && cl.Layout == "ordered4" && cl.Desc {
-		return []finding{{sigOrderedDescChunk, mm.String()}}
-	}
+	// (two coarse classes lived here while the aggregate cursor reduced a record twice after
+	// an empty record of another file - sigMixedChunk, sigOrderedDescChunk; fixed in /repo
+	// 6428309, so mismatches in those cells are attributed like everywhere else)
 	// row-level attribution against the expectation under the deterministic defect models
 	causes := map[string]string{}
 	// a deterministic defect model that changes the expectation is part of the explanation
